@@ -138,6 +138,7 @@ func (e *Engine) resetPath(prefix []Decision) {
 	e.inPool = map[*Value]bool{}
 	e.byteBacking = nil
 	e.clock = 0
+	e.poolPrivate = nil
 	e.cellArr = nil
 	e.copyCells = nil
 	e.initRan = map[*ssa.Package]bool{}
